@@ -116,7 +116,9 @@ def gen_case(rng, tier="quick"):
     pool = SIZE_STRINGS + (BIG_SIZE_STRINGS if rng.random() < (0.03 if tier == "quick" else 0.06) else [])
     limit = rng.choice(pool) if rng.random() < 0.75 else None
     stream = rng.choice(pool) if rng.random() < 0.6 else None
-    store = rng.random() < 0.4
+    # early focus: an origin that answers as soon as it has the request head, while a streamed request body is still uploading
+    early_focus = rng.random() < 0.2
+    store = rng.random() < (0.8 if early_focus else 0.4)
     L, T = ref_size(limit), ref_size(stream)
     sizes = pick_sizes(rng, L, T)
     nreq = rng.choice([1, 1, 2])
@@ -125,11 +127,19 @@ def gen_case(rng, tier="quick"):
         last = k == nreq - 1
         rq_plan = gen_message_plan(rng, "req", L, T, sizes, last)
         rs_plan = gen_message_plan(rng, "resp", L, T, sizes, last)
-        rq = build_request(rng, k, mode, rq_plan, expect100=rng.random() < 0.08)
+        if early_focus:
+            for _ in range(30):
+                if classify_plan(rq_plan, L, T) == "stream" and rq_plan["n"] >= 2 and rs_plan["framing"] != "eof":
+                    break
+                rq_plan = gen_message_plan(rng, "req", L, T, sizes + [rng.randint(20, 400)], last)
+                rs_plan = gen_message_plan(rng, "resp", L, T, sizes, last)
+        early = classify_plan(rq_plan, L, T) == "stream" and rq_plan["n"] >= 2 and rs_plan["framing"] != "eof" and (early_focus or rng.random() < 0.3)
+        rq = build_request(rng, k, mode, rq_plan, expect100=rng.random() < 0.08 and not early)
         rs = build_response(rng, rq["tag"], rs_plan)
-        items.append({"req": rq, "resp": rs, "rq_plan": rq_plan, "rs_plan": rs_plan})
+        items.append({"req": rq, "resp": rs, "rq_plan": rq_plan, "rs_plan": rs_plan, "early": early})
     big = max(max(len(it["req"]["raw"]), len(it["resp"]["raw"])) for it in items)
     segs = ["whole", "random", "random", "fixed"] + (["bytes"] if big < 1500 else [])
+    any_early = any(it["early"] for it in items)
     return {
         "mode": mode,
         "options": {"body_size_limit": limit, "stream_large_bodies": stream, "store_streamed_bodies": store},
@@ -137,8 +147,9 @@ def gen_case(rng, tier="quick"):
         "T": T,
         "store": store,
         "items": items,
-        "client_seg": rng.choice(segs),
+        "client_seg": rng.choice(segs[1:] if any_early else segs),  # an upload in one segment is complete before any answer
         "server_seg": rng.choice(segs),
+        "early": any_early,
         "fixed_seg": rng.choice([f for f in (1, 2, 3, 5, 7, 16, 100, 1000, 4096, 16384, 65536) if big / f <= 1200] or [1 << 20]),
         "schedule": rng.choice(["fifo", "random", "random"]),
         "delay_p": rng.choice([0.0, 0.0, 0.3]),
